@@ -5,6 +5,7 @@ CONSTANTS
   EofWithData = TRUE
   ShapesA <- LocalShapes
   ShapesB <- @@SHAPESB@@
+  DevDrainDeadline = FALSE
   DevCloseWriterFallback = FALSE
   Emit = @@EMIT@@
   Classes = {1}
@@ -21,11 +22,13 @@ CONSTANTS
   DevSpin = FALSE
   DevNoUnblock = FALSE
   DevAliasFlush = FALSE
+  SockBatch = FALSE
+  DevNoInnerFlush = FALSE
   SockQueue = FALSE
   DevQueueRefs = FALSE
   DevDropOnClose = FALSE
 INIT BInit
 NEXT BNext
 VIEW bview
-INVARIANTS BTypeOK BPipe BComplete BReverseKeepsFlowing BNoSpuriousEnd
+INVARIANTS BTypeOK BPipe BComplete BReverseKeepsFlowing BNoSpuriousEnd BNoDeadline
 CHECK_DEADLOCK FALSE
